@@ -74,7 +74,12 @@ def run_scenarios(res, out, limit=None):
         payload = (n % 3 == 2)
         dirs = ("s%d" % n) if (not payload and n % 4 == 1) else None
         args, data, stdin = materialise(scn, wd, payload, dirs)
-        rc, so, se = cli.run(args, stdin=stdin)
+        cwd = None
+        if dirs and n % 8 == 5 and scn["path"] != "structured":
+            # the same directories named relative to the working directory: `-d .` from inside the data directory
+            cwd = os.path.join(wd.path, dirs, "data")
+            args = [("." if a == cwd else ("../rules" if a == os.path.join(wd.path, dirs, "rules") else a)) for a in args]
+        rc, so, se = cli.run(args, stdin=stdin, cwd=cwd)
         n += 1
         want = scn["exit"]
         got = rc if rc >= 0 else rc
